@@ -18,6 +18,8 @@ for f in sorted(os.listdir(cdir)):
         if m:
             hdr = txt.split("Definition c")[0]
             v = hdr + "\nDefinition cc : case := %s.\n" % m.group(1)
+            v += "Fixpoint fd {A} (eq : A -> A -> bool) (a b : list A) (i : Z) : Z := match a, b with x :: a', y :: b' => if eq x y then fd eq a' b' (i+1)%Z else i | [], [] => (-1)%Z | _, _ => i end.\n"
+            v += "Definition dd := Eval vm_compute in (match cc with CProg b (Outcome t f) => match outcome_of (run_program fuel no_devs b) with Outcome t' f' => (fd (list_eqb oval_eqb) t t' 0%Z, ofin_eqb f f') | _ => ((-2)%Z, false) end | _ => ((-3)%Z, false) end).\nPrint dd.\n"
             v += "Definition oo := Eval vm_compute in (match cc with CProg b _ => outcome_of (run_program fuel no_devs b) end).\nPrint oo.\n"
             open("/tmp/luadbg.v", "w").write(v)
             out = subprocess.run(["coqc", "-R", "/verif/coq", "GL", "/tmp/luadbg.v"], capture_output=True, text=True, cwd="/tmp")
@@ -32,6 +34,13 @@ for f in sorted(os.listdir(cdir)):
                 except Exception:
                     return m.group(0)
             o = re.sub(r"OStr \[([0-9; ]*)\]", dec, o)
+            m2 = re.search(r"dd = \(([-0-9]+), (\w+)\)", o)
+            print("FIRST DIFFERING TRACE ROW (Coq):", m2.group(1) if m2 else "?", " final equal:", m2.group(2) if m2 else "?")
+            if m2 and int(m2.group(1)) >= 0:
+                k = int(m2.group(1)); ob = case["observed"]["trace"]
+                rows = re.findall(r"\[([^\[\]]*)\]", o.split("oo = Outcome",1)[1] if "oo = Outcome" in o else "")
+                print("   OBS  row:", ob[k] if k < len(ob) else "<end>"); print("   MODEL row:", rows[k] if k < len(rows) else "<end>")
+            if brief: sys.exit(0)
             if not brief:
                 print("MODEL:", o[:4000])
             else:
